@@ -47,6 +47,7 @@ class World:
         # per-path tables: nothing learnt on one path may leak into another
         _sb.RAW_CONTENT.clear()
         _sb._same_vars.clear()
+        _sb.EQ_PAIRS.clear()
         _sb._atom_ids.clear()
 
     # -- variables
